@@ -72,6 +72,9 @@ def data_monitor(spec, lines, events):
     mode = ctor["mode"]
     policy = ctor.get("searcher_data", "rungs")
     reported = {}      # (trial, level) -> list of metric values reported at that level (non-ignored runs)
+    expected = {}      # trial -> set of levels the data policy selects among the levels it has reported
+    last_nonrung = {}  # rungs_and_last: the latest reported level if it is not a rung level
+    rung_levels = None
     running = set()
     last_result = {}
     levels = None
@@ -85,7 +88,25 @@ def data_monitor(spec, lines, events):
         elif k == "resume":
             running.add(ev["trial"])
         elif k == "result":
-            reported.setdefault((ev["trial"], ev["resource"]), []).append(ev["metric"])
+            t_, r_ = ev["trial"], ev["resource"]
+            first_time = (t_, r_) not in reported
+            reported.setdefault((t_, r_), []).append(ev["metric"])
+            if rung_levels is None and lines and lines[0][1]:
+                rung_levels = set(lines[0][1].get("rung_levels", []))
+            if first_time and ev.get("prev_decision") == "CONTINUE" and not ev.get("late"):
+                is_rung = r_ in (rung_levels or set()) or r_ == max_t
+                exp = expected.setdefault(t_, set())
+                if policy == "all":
+                    exp.add(r_)
+                elif policy == "rungs":
+                    if is_rung:
+                        exp.add(r_)
+                else:  # rungs_and_last (judged only with one bracket, where "rung level" is unambiguous)
+                    if t_ in last_nonrung:
+                        exp.discard(last_nonrung.pop(t_))
+                    exp.add(r_)
+                    if not is_rung:
+                        last_nonrung[t_] = r_
             if ev["decision"] != "CONTINUE":
                 running.discard(ev["trial"])
         elif k in ("remove", "complete", "error"):
@@ -103,6 +124,16 @@ def data_monitor(spec, lines, events):
             if c not in vals:
                 out.append({"signature": "c14:observation-not-reported-value", "what":
                             f"observation for trial {t} level {r} is {c}, reported values (min convention) {vals}", "detail": ev})
+        if policy != "rungs_and_last" or ctor.get("brackets", 1) == 1:
+            have = {}
+            for (t, r) in obs:
+                have.setdefault(t, set()).add(r)
+            for t in set(have) | set(expected):
+                if have.get(t, set()) != expected.get(t, set()):
+                    out.append({"signature": "c14:policy-levels", "what":
+                                f"searcher_data={policy}: trial {t} has observations at levels {sorted(have.get(t, set()))}, the policy "
+                                f"selects {sorted(expected.get(t, set()))} of the levels it reported", "detail": ev})
+                    break
         for t, r in impl["pending"]:
             if t not in running:
                 out.append({"signature": "c14:pending-of-trial-not-running", "what":
